@@ -394,7 +394,7 @@ func (rig *gensimRig) runJob(job *GJob, race bool, timeout time.Duration) (*GJob
 		return res, nil
 	}
 	if exit != 0 || rerr != nil {
-		return nil, workerCrash{fmt.Sprintf("worker exit %d (%v)\n%s", exit, rerr, clipStr(string(se)+string(so), 6000))}
+		return nil, workerCrash{fmt.Sprintf("worker exit %d (%v)\n%s", exit, rerr, clipStr(string(se)+string(so), 6000)), -1}
 	}
 	var res GJobResult
 	if err := json.Unmarshal(out, &res); err != nil {
